@@ -4,6 +4,7 @@ package main
 // recovers what the kernel encoded).
 
 import (
+	"math/big"
 	"bufio"
 	"encoding/hex"
 	"encoding/json"
@@ -759,6 +760,49 @@ func typeTokenSoup(rng *rand.Rand) string {
 	return b.String()
 }
 
+// headerNumberLadder: each of the three numbers of the header at and around the limits of the integer types a
+// parser may accumulate them in (2^31, 2^32, 2^63, 2^64, 2^64+k, 2^96, 2^128 …), with leading zeros and with more
+// digits than any machine integer has. The seconds and milliseconds are int64, the sequence is uint32: a value that
+// does not fit is a malformed header (error, no message) — in particular one that would fit after wrapping round.
+func headerNumberLadder() []ACase {
+	pow := func(e uint) *big.Int { return new(big.Int).Lsh(big.NewInt(1), e) }
+	var vals []*big.Int
+	for _, e := range []uint{8, 16, 31, 32, 33, 53, 63, 64, 65, 96, 127, 128, 129, 256} {
+		for _, d := range []int64{-2, -1, 0, 1, 2, 5, 1000, 4294967295, 4294967296} {
+			v := new(big.Int).Add(pow(e), big.NewInt(d))
+			vals = append(vals, v)
+		}
+	}
+	for _, d := range []string{"9999999999", "99999999999999999999", "10000000000000000000", "18446744073709551615", "18446744073709551616",
+		"18446744073709551621", "36893488147419103237", "340282366920938463463374607431768211461", "100000000000000000000000000000000000005"} {
+		v, _ := new(big.Int).SetString(d, 10)
+		vals = append(vals, v)
+	}
+	maxI64 := new(big.Int).SetUint64(1<<63 - 1)
+	maxU32 := big.NewInt(4294967295)
+	var out []ACase
+	for _, v := range vals {
+		for _, zeros := range []int{0, 1, 12} {
+			t := strings.Repeat("0", zeros) + v.String()
+			for pos := 0; pos < 3; pos++ {
+				hdr := [3]string{"1490137971", "011", "50406"}
+				hdr[pos] = t
+				bad := (pos < 2 && v.Cmp(maxI64) > 0) || (pos == 2 && v.Cmp(maxU32) > 0)
+				text := "audit(" + hdr[0] + "." + hdr[1] + ":" + hdr[2] + "): a=b"
+				c := mkACase("data", 1300, text)
+				c.Bad = bad
+				c.Note = "header-number-ladder"
+				out = append(out, c)
+				l := mkACase("line", 0, "type=SYSCALL msg="+text)
+				l.Bad = bad
+				l.Note = "header-number-ladder"
+				out = append(out, l)
+			}
+		}
+	}
+	return out
+}
+
 func corruptC04(rng *rand.Rand, c ACase) ACase {
 	line := c.input()
 	// the body must not be able to repair the header: use one without ( ) . :
@@ -1284,6 +1328,9 @@ func auparseFamily(ctx *Ctx) error {
 	switch ctx.Prop {
 	case "C04":
 		res.Rule = "lines 'type=T msg=audit(S.mmm:N): body' for every named record type and a sample of the others (thorough: all 65536), boundary seconds/milliseconds/sequences, bodies containing msg=, ')', ':', '(' , '.', the well-known key names and Unicode space; plus truncations/corruptions of such headers. Non-trivial = body non-empty or boundary value or corrupted header; distinct by input bytes."
+		for _, c := range headerNumberLadder() {
+			run(c, true, true, "header-number-ladder")
+		}
 		var types []int
 		for t := 0; t < 65536; t++ {
 			name := auparse.AuditMessageType(t).String()
@@ -1424,6 +1471,9 @@ func auparseFamily(ctx *Ctx) error {
 		}
 	case "C05":
 		res.Rule = "log lines from /repo's testdata mutated by splice/truncate/byte-flip/insert with a dictionary of the tokens the parser looks for, arbitrary bytes, and fixed lines under every decoded record type (thorough: all 65536); every case runs ParseLogLine or Parse+Data+Tags+ToMapStr twice under recover and a watchdog; a sample is also answered by the model. Non-trivial = the input parses past the header (Data() is reached) or is a mutated header; distinct by input bytes."
+		for _, c := range headerNumberLadder() {
+			run(c, true, true, "header-number-ladder")
+		}
 		n := ctx.N(120000, 3000000)
 		for i := 0; i < n && res.NumViolations() < 5; i++ {
 			base := lines[ctx.Rng.Intn(len(lines))]
